@@ -1089,7 +1089,7 @@ impl<'a, 'b> GeneratorState<'a> {
                             None => {
                                 return Err(self
                                     .compiler_state
-                                    .syntax_error("Break statement outside loop", pos))
+                                    .syntax_error("Break statement outside loop", body.pos))
                             }
                             Some((_, bl, _)) => bl.clone(),
                         }
@@ -1102,13 +1102,13 @@ impl<'a, 'b> GeneratorState<'a> {
                             None => {
                                 return Err(self
                                     .compiler_state
-                                    .syntax_error("Break statement outside loop", pos))
+                                    .syntax_error("Continue statement outside loop", body.pos))
                             }
                             Some((cl, _, _)) => {
                                 if cl.is_empty() {
                                     return Err(self
                                         .compiler_state
-                                        .syntax_error("Continue statement outside loop", pos));
+                                        .syntax_error("Continue statement outside loop", body.pos));
                                 }
                                 cl.clone()
                             }
